@@ -68,8 +68,8 @@ def spec(vv, ev, compliant, has_type):
 
 def run(out, info, tier, seed):
     out.checker_cmd = 'make -C coq && coqc -Q coq MV coq/Props/C15.v'
-    out.trusted_base = common.COMMON_TRUSTED + ['modelled by hand: init_and_get_adapter, both adapters, extract_version, LocalProxy.init compliance gate (Ext/Adapters.v); '
-                                                'check_api_compliance itself (mosaik_api_v3) and the remote transport are not modelled']
+    out.trusted_base = common.COMMON_TRUSTED + ['regenerated from the source and tied to the model (harness/py2coq_adapt.py, Ext/AdaptTie.v): init_and_get_adapter, both adapters, LocalProxy.init compliance gate; compared literally: extract_version, RemoteProxy.init, Adapter.send; '
+                                                'check_api_compliance itself (mosaik_api_v3), the parsing of version strings and the remote transport are not modelled']
     obl, log, broken = common.check_props_file('C15', info)
     for o in obl: out.add_obligation(o['name'], o['ok'], o['assumptions'])
     bad = common.hygiene()
